@@ -26,10 +26,10 @@ def specSeq (rd : Nat → Nat) (endp : Nat) : Nat → List Nat → List (List Na
     (slice rd pos k :: rest.1, rest.2)
 
 /-- **Range reads are exact.** For every memory, chunk size ≥ 2 (devices serve 4 or 8), build mode, window
-    (any cursor, odd or even; any end below 64 KiB) and any sequence of partial reads of any sizes: every call
+    (any cursor, odd or even; any end inside the 2^17-byte SII address space) and any sequence of partial reads of any sizes: every call
     returns exactly the stored bytes `[pos, pos + k)` with `k = min(requested, end − pos)`, never a byte from
     `end` on, never an error, never a panic. -/
-theorem range_read_exact (m : Mode) (p : Prov) (hcs : 2 ≤ p.cs) (endp : Nat) (he : endp < 65536) :
+theorem range_read_exact (m : Mode) (p : Prov) (hcs : 2 ≤ p.cs) (endp : Nat) (he : endp ≤ 131072) :
     ∀ (ns : List Nat) (pos : Nat),
       (readSeq m p ⟨pos, endp⟩ ns).1
         = .ok ((specSeq p.rd endp pos ns).1, ⟨(specSeq p.rd endp pos ns).2, endp⟩) := by
@@ -61,49 +61,62 @@ theorem range_read_contiguous (rd : Nat → Nat) (endp : Nat) :
     · congr 1; omega
     · omega
 
-/-- `EepromRange::new(start_word, len_words)`, PARTIAL: when the byte addresses fit the 16-bit cursor the
-    window is exactly the bytes of the words asked for. -/
-theorem range_window_partial (m : Mode) (w n : Nat) (h : 2 * w + 2 * n < 65536) :
-    Range.new m w n = ret ⟨2 * w, 2 * w + 2 * n⟩ := by
-  unfold Range.new
-  rw [mul16_ok _ _ _ _ (by omega), mul16_ok _ _ _ _ (by omega)]
-  simp only [bind_ret]
-  rw [add16_ok _ _ _ _ (by omega)]
-  simp only [bind_ret]
+/-- **`EepromRange::new(start_word, len_words)`, any start word, any length** (was `range_window_partial`): the
+    window is exactly the bytes of the words asked for, clipped to the end of the 2^16-word address space; with
+    `range_read_exact` every window of every EEPROM the word addresses can reach (up to 1 Mbit) is read exactly. -/
+theorem range_window (m : Mode) (w n : Nat) :
+    Range.new m w n = ret ⟨2 * w, min (2 * w + 2 * n) 131072⟩ := by
+  unfold Range.new ADDRESS_SPACE_BYTES
   congr 2 <;> omega
 
-/-- The full statement ("any start word, any length") is FALSE of the code: the byte cursor is a `u16`, so
-    words from 0x8000 up (EEPROMs larger than 64 KiB: the property's 1 Mbit .. 4 Mbit sizes) panic in checked
-    builds and are read from the wrong place in wrapping builds (word 0x8000 reads word 0). -/
-theorem range_window_counterexample :
-    (Range.new .checked 0x8000 4).1 = .panic "new:mul" ∧
-    (Range.new .wrapping 0x8000 4).1 = .ok ⟨0, 8⟩ ∧
-    (Range.new .checked 0x7ffe 2).1 = .panic "new:add" := by
+theorem range_window_small (m : Mode) (w n : Nat) (h : 2 * w + 2 * n ≤ 131072) :
+    Range.new m w n = ret ⟨2 * w, 2 * w + 2 * n⟩ := by
+  rw [range_window]; congr 2; omega
+
+/-- FIXED (was `range_window_counterexample`: words from 0x8000 up panicked in checked builds and were read from
+    the wrong place — word 0x8000 read word 0 — in wrapping builds). -/
+theorem range_window_fixed :
+    (Range.new .checked 0x8000 4).1 = .ok ⟨65536, 65544⟩ ∧
+    (Range.new .wrapping 0x8000 4).1 = .ok ⟨65536, 65544⟩ ∧
+    (Range.new .checked 0x7ffe 2).1 = .ok ⟨65532, 65536⟩ ∧
+    (Range.new .checked 0xffff 9).1 = .ok ⟨131070, 131072⟩ := by
   decide
 
-/-- `SubDevice::eeprom_read_raw(start_word, buf)` = `start_at(start_word, buf.len()).read(buf)`, PARTIAL: an
-    even number of bytes inside the first 64 KiB is returned exactly. -/
-theorem read_raw_exact_partial (m : Mode) (p : Prov) (hcs : 2 ≤ p.cs) (w n : Nat)
-    (hn : n % 2 = 0) (h : 2 * w + n < 65536) :
+/-- **`SubDevice::eeprom_read_raw(start_word, buf)`** = `start_at(start_word, buf.len()).read(buf)`, any length,
+    odd or even (was `read_raw_exact_partial`, even lengths only): exactly the `n` stored bytes from the start
+    word are returned — `start_at` rounds the window up to whole words and `read` stops at the buffer's end. -/
+theorem read_raw_exact (m : Mode) (p : Prov) (hcs : 2 ≤ p.cs) (w n : Nat)
+    (h : 2 * w + 2 * ((n + 1) / 2) ≤ 131072) :
     (bind (startAt m w n) fun r => Range.read m p r n).1
-      = .ok (slice p.rd (2 * w) n, ⟨2 * w + n, 2 * w + n⟩) := by
+      = .ok (slice p.rd (2 * w) n, ⟨2 * w + n, 2 * w + 2 * ((n + 1) / 2)⟩) := by
   unfold startAt
-  rw [range_window_partial m w (n / 2) (by omega)]
+  rw [range_window_small m w ((n + 1) / 2) h]
   simp only [bind_ret]
-  have hr := read_ok m p hcs ⟨2 * w, 2 * w + 2 * (n / 2)⟩ n (by simp only; omega)
+  have hr := read_ok m p hcs ⟨2 * w, 2 * w + 2 * ((n + 1) / 2)⟩ n (by simp only; omega)
   rw [hr.1]
-  have : min n (2 * w + 2 * (n / 2) - 2 * w) = n := by omega
+  have : min n (2 * w + 2 * ((n + 1) / 2) - 2 * w) = n := by omega
   simp only [this]
-  congr 3 <;> omega
 
-/-- FALSE for odd lengths: `start_at` turns the byte length into `len_bytes / 2` words, so the last byte is
-    cut off — `eeprom_read_raw` into a 3-byte buffer returns 2 bytes, into a 1-byte buffer returns 0 bytes, and
-    `eeprom_read::<u8>` (a `read_exact` of 1 byte) fails with `SectionOverrun`. -/
-theorem read_raw_odd_counterexample :
+/-- **`SubDevice::eeprom_read::<T>(start_word)`** = `start_at(start_word, PACKED_LEN).read_exact(buf)`: every
+    packed length, odd ones included, reads exactly its bytes. -/
+theorem read_typed_exact (m : Mode) (p : Prov) (hcs : 2 ≤ p.cs) (w n : Nat)
+    (h : 2 * w + 2 * ((n + 1) / 2) ≤ 131072) :
+    (bind (startAt m w n) fun r => eofToOverrun (Range.readExact m p r n)).1
+      = .ok (slice p.rd (2 * w) n, ⟨2 * w + n, 2 * w + 2 * ((n + 1) / 2)⟩) := by
+  unfold startAt
+  rw [range_window_small m w ((n + 1) / 2) h]
+  simp only [bind_ret]
+  have hr := readExact_ok m p hcs ⟨2 * w, 2 * w + 2 * ((n + 1) / 2)⟩ n (by simp only; omega) (by simp only; omega)
+  exact (eofToOverrun_ok hr.1).1
+
+/-- FIXED (was `read_raw_odd_counterexample`: `start_at` turned the byte length into `len_bytes / 2` words, so a
+    3-byte read returned 2 bytes, a 1-byte read 0 bytes, and `eeprom_read::<u8>` failed with `SectionOverrun`). -/
+theorem read_raw_odd_fixed :
     let p : Prov := ⟨fun a => a + 1, 4⟩
-    (bind (startAt .checked 4 3) fun r => Range.read .checked p r 3).1 = .ok ([9, 10], ⟨10, 10⟩) ∧
-    (bind (startAt .checked 4 1) fun r => Range.read .checked p r 1).1 = .ok ([], ⟨8, 8⟩) ∧
-    (bind (startAt .checked 4 1) fun r => eofToOverrun (Range.readExact .checked p r 1)).1 = .err .overrun := by
+    (bind (startAt .checked 4 3) fun r => Range.read .checked p r 3).1 = .ok ([9, 10, 11], ⟨11, 12⟩) ∧
+    (bind (startAt .checked 4 1) fun r => Range.read .checked p r 1).1 = .ok ([9], ⟨9, 10⟩) ∧
+    (bind (startAt .wrapping 4 1) fun r => eofToOverrun (Range.readExact .wrapping p r 1)).1
+      = .ok ([9], ⟨9, 10⟩) := by
   decide
 
 /-! ## Categories of a well-formed image -/
@@ -126,33 +139,34 @@ theorem holds_cats {p : Prov} {hdr : List Nat} {cats : List Cat} (h : HoldsImage
 /-- **Every present category is found with its exact extent.** For any image
     `header ++ pre ++ [c] ++ post ++ End` in memory (any chunk size ≥ 4, any build mode), where no category
     in `pre` has the type searched for (unknown vendor types are fine: they all map to `Nop`), fewer than 32
-    empty categories come first, and the category ends below byte 65536: the search returns the byte window
+    empty categories come first, and the category lies inside the 128 KiB the word addresses can reach: the search returns the byte window
     of `c`'s body, exactly. -/
 theorem category_found (m : Mode) (p : Prov) (hcs : 4 ≤ p.cs) (hdr : List Nat) (pre : List Cat) (c : Cat)
     (post : List Cat) (himg : HoldsImage p (encodeSii hdr (pre ++ c :: post))) (hhdr : hdr.length = 128)
     (hpre : ∀ x ∈ pre, x.WF ∧ catOf x.type ≠ catOf c.type ∧ catOf x.type ≠ Gen.Eeprom.CAT_END)
     (hc : c.WF) (hne : empties pre + (if c.body.length / 2 = 0 then 1 else 0) < 32)
-    (hsize : 128 + (encCats pre).length + 4 + c.body.length < 65536) :
+    (hsize : 128 + (encCats pre).length + 4 + c.body.length ≤ 131072)
+    (hstart : 128 + (encCats pre).length + 4 < 131072) :
     (category m p (catOf c.type)).1
       = .ok (some ⟨128 + (encCats pre).length + 4, 128 + (encCats pre).length + 4 + c.body.length⟩) := by
   have hh := holds_cats himg hhdr
   rw [encCats_append] at hh
   simp only [encCats, List.append_assoc] at hh
-  exact category_found_at m p hcs pre c _ hh hpre hc hne hsize
+  exact category_found_at m p hcs pre c _ hh hpre hc hne hsize hstart
 
 /-- **An absent category is reported absent**: no category of that type before the End marker ⇒ `None`. -/
 theorem category_absent (m : Mode) (p : Prov) (hcs : 4 ≤ p.cs) (hdr : List Nat) (cats : List Cat) (cat : Nat)
     (himg : HoldsImage p (encodeSii hdr cats)) (hhdr : hdr.length = 128)
     (hall : ∀ x ∈ cats, x.WF ∧ catOf x.type ≠ cat ∧ catOf x.type ≠ Gen.Eeprom.CAT_END)
     (hcat : cat ≠ Gen.Eeprom.CAT_END) (hne : empties cats < 32)
-    (hsize : 128 + (encCats cats).length + 4 < 65536) :
+    (hsize : 128 + (encCats cats).length + 4 < 131072) :
     (category m p cat).1 = .ok none := by
   have hh := holds_cats himg hhdr
   exact category_absent_at m p hcs cats cat [] (by simpa using hh) hall hcat hne hsize
 
 /-- The full statement (any well-formed image) is FALSE of the code: 32 empty categories in front make the
-    search give up (the blank-EEPROM heuristic), and categories beyond byte 65532 are out of reach of the `u16`
-    cursor (`C13.category_beyond_32k_counterexample`). Here: 32 empty vendor categories, then FMMU. -/
+    search give up (the blank-EEPROM heuristic; a deliberate choice of the code, kept). Here: 32 empty vendor
+    categories, then FMMU. -/
 theorem category_found_counterexample :
     let cats := (List.replicate 32 (⟨0x2000, []⟩ : Cat)) ++ [⟨40, [1, 2]⟩]
     (category .checked ⟨imgRd (encodeSii (List.replicate 128 0) cats) 255, 4⟩ 40).1 = .ok none := by
@@ -200,7 +214,7 @@ theorem sync_managers_roundtrip (m : Mode) (p : Prov) (hcs : 4 ≤ p.cs) (hdr : 
     (hpre : ∀ x ∈ pre, x.WF ∧ catOf x.type ≠ 41 ∧ catOf x.type ≠ Gen.Eeprom.CAT_END)
     (hsms : ∀ s ∈ sms, s.WF) (hn : sms.length ≤ 8)
     (hne : empties pre + (if sms.length = 0 then 1 else 0) < 32)
-    (hsize : 128 + (encCats pre).length + 4 + 8 * sms.length < 65536) :
+    (hsize : 128 + (encCats pre).length + 4 + 8 * sms.length < 131072) :
     (syncManagers m p).1 = .ok (sms.map smOf) := by
   have hlen : (sms.flatMap encSm).length = 8 * sms.length :=
     flatMap_length_const encSm 8 sms (fun s _ => by simp [encSm, le16])
@@ -209,7 +223,7 @@ theorem sync_managers_roundtrip (m : Mode) (p : Prov) (hcs : 4 ≤ p.cs) (hdr : 
     (by simp only [hc41]; exact hpre) ⟨by simp, by simp only [hlen]; omega, by simp only [hlen]; omega⟩
     (by simp only [hlen]; have : 8 * sms.length / 2 = 0 ↔ sms.length = 0 := by omega
         simp only [this]; exact hne)
-    (by simp only [hlen]; omega)
+    (by simp only [hlen]; omega) (by omega)
   simp only [hc41, hlen] at hcat
   unfold syncManagers items
   simp only [Gen.Eeprom.CAT_SYNC_MANAGER]
@@ -251,7 +265,7 @@ theorem fmmu_mappings_roundtrip (m : Mode) (p : Prov) (hcs : 4 ≤ p.cs) (hdr : 
     (hpre : ∀ x ∈ pre, x.WF ∧ catOf x.type ≠ 42 ∧ catOf x.type ≠ Gen.Eeprom.CAT_END)
     (hn : ex.length ≤ 16) (hpad : pad.length < 3) (heven : (3 * ex.length + pad.length) % 2 = 0)
     (hne : empties pre + (if (3 * ex.length + pad.length) / 2 = 0 then 1 else 0) < 32)
-    (hsize : 128 + (encCats pre).length + 4 + 3 * ex.length + pad.length < 65536) :
+    (hsize : 128 + (encCats pre).length + 4 + 3 * ex.length + pad.length < 131072) :
     (fmmuMappings m p).1 = .ok (ex.map fun e => e.2.1) := by
   have hlen : (ex.flatMap fun e => [e.1, e.2.1, e.2.2]).length = 3 * ex.length :=
     flatMap_length_const _ 3 ex (fun _ _ => rfl)
@@ -261,7 +275,7 @@ theorem fmmu_mappings_roundtrip (m : Mode) (p : Prov) (hcs : 4 ≤ p.cs) (hdr : 
   obtain ⟨hcat, hbody⟩ := category_found_body m p hcs pre
     ⟨42, (ex.flatMap fun e => [e.1, e.2.1, e.2.2]) ++ pad⟩ _ (holds_split himg hhdr)
     (by simp only [hc42]; exact hpre) ⟨by simp, by simp only [hbl]; exact heven, by simp only [hbl]; omega⟩
-    (by simp only [hbl]; exact hne) (by simp only [hbl]; omega)
+    (by simp only [hbl]; exact hne) (by simp only [hbl]; omega) (by omega)
   simp only [hc42, hbl] at hcat
   unfold fmmuMappings items
   simp only [Gen.Eeprom.CAT_FMMU_EX]
@@ -302,11 +316,11 @@ theorem fmmus_roundtrip (m : Mode) (p : Prov) (hcs : 4 ≤ p.cs) (hdr : List Nat
     (hpre : ∀ x ∈ pre, x.WF ∧ catOf x.type ≠ 40 ∧ catOf x.type ≠ Gen.Eeprom.CAT_END)
     (hus : ∀ u ∈ us, u ≤ 3 ∨ u = 255) (hn : us.length ≤ 16) (heven : us.length % 2 = 0)
     (hne : empties pre + (if us.length / 2 = 0 then 1 else 0) < 32)
-    (hsize : 128 + (encCats pre).length + 4 + us.length < 65536) :
+    (hsize : 128 + (encCats pre).length + 4 + us.length < 131072) :
     (fmmus m p).1 = .ok (us.map fmmuOf) := by
   have hc40 : catOf 40 = 40 := by decide
   obtain ⟨hcat, hbody⟩ := category_found_body m p hcs pre ⟨40, us⟩ _ (holds_split himg hhdr)
-    (by simp only [hc40]; exact hpre) ⟨by simp, heven, by simp only; omega⟩ hne hsize
+    (by simp only [hc40]; exact hpre) ⟨by simp, heven, by simp only; omega⟩ hne (by simp only; omega) (by omega)
   simp only [hc40] at hcat
   unfold fmmus
   simp only [Gen.Eeprom.CAT_FMMU, Gen.Eeprom.FMMU_READ_BUF]
@@ -331,7 +345,7 @@ theorem identity_roundtrip (m : Mode) (p : Prov) (hcs : 2 ≤ p.cs) (v pc rev se
   unfold identity
   simp only [Gen.Eeprom.IDENTITY_WORD_ADDR]
   rw [show startAt m 8 16 = ret ⟨16, 32⟩ from by
-    unfold startAt; rw [range_window_partial m 8 8 (by decide)]]
+    unfold startAt; rw [range_window_small m 8 8 (by decide)]]
   simp only [bind_ret]
   have hre := readExact_ok m p hcs ⟨16, 32⟩ 16 (by decide) (by decide)
   rw [bind_fst_ok _ (eofToOverrun_ok hre.1).1]
@@ -355,7 +369,7 @@ theorem size_roundtrip (m : Mode) (p : Prov) (hcs : 2 ≤ p.cs) (w : Nat) (hw : 
   unfold size
   simp only [Gen.Eeprom.SIZE_WORD_ADDR]
   rw [show startAt m 62 2 = ret ⟨124, 126⟩ from by
-    unfold startAt; rw [range_window_partial m 62 1 (by decide)]]
+    unfold startAt; rw [range_window_small m 62 1 (by decide)]]
   simp only [bind_ret]
   have hre := readExact_ok m p hcs ⟨124, 126⟩ 2 (by decide) (by decide)
   rw [bind_fst_ok _ (eofToOverrun_ok hre.1).1]
@@ -377,7 +391,7 @@ theorem mailbox_roundtrip (m : Mode) (p : Prov) (hcs : 2 ≤ p.cs) (ro rs so ss 
   unfold mailboxConfig
   simp only [Gen.Eeprom.MAILBOX_WORD_ADDR]
   rw [show startAt m 24 10 = ret ⟨48, 58⟩ from by
-    unfold startAt; rw [range_window_partial m 24 5 (by decide)]]
+    unfold startAt; rw [range_window_small m 24 5 (by decide)]]
   simp only [bind_ret]
   have hre := readExact_ok m p hcs ⟨48, 58⟩ 10 (by decide) (by decide)
   rw [bind_fst_ok _ (eofToOverrun_ok hre.1).1]
@@ -410,7 +424,7 @@ theorem find_string_roundtrip (m : Mode) (p : Prov) (hcs : 4 ≤ p.cs) (hdr : Li
     (hwf : (⟨10, (before ++ t :: after).length :: ((before ++ t :: after).flatMap encStr) ++ pad⟩ : Cat).WF)
     (hne : empties pre < 32) (hN : t.length ≤ N)
     (hsize : 128 + (encCats pre).length + 4 +
-      ((before ++ t :: after).length :: ((before ++ t :: after).flatMap encStr) ++ pad).length < 65536) :
+      ((before ++ t :: after).length :: ((before ++ t :: after).flatMap encStr) ++ pad).length < 131072) :
     (findString m p N (before.length + 1)).1 = .ok (some (cleanString t)) := by
   have hc10 : catOf 10 = 10 := by decide
   generalize hbody : (before ++ t :: after).length :: ((before ++ t :: after).flatMap encStr) ++ pad = body
@@ -419,7 +433,7 @@ theorem find_string_roundtrip (m : Mode) (p : Prov) (hcs : 4 ≤ p.cs) (hdr : Li
   obtain ⟨hcat, hb⟩ := category_found_body m p hcs pre ⟨10, body⟩ _ (holds_split himg hhdr)
     (by simp only [hc10]; exact hpre) hwf
     (by have : ¬ body.length / 2 = 0 := by have := hwf.2.1; simp only at this; omega
-        simp only [this, if_false]; omega) hsize
+        simp only [this, if_false]; omega) (by simp only; omega) (by omega)
   simp only [hc10] at hcat
   unfold findString
   rw [if_neg (by omega)]
@@ -428,7 +442,7 @@ theorem find_string_roundtrip (m : Mode) (p : Prov) (hcs : 4 ≤ p.cs) (hdr : Li
   simp only
   -- the count byte
   generalize hs : 128 + (encCats pre).length + 4 = s at hcat hb hsize
-  rw [bind_fst_ok _ (readByte_ok m p (by omega) ⟨s, s + body.length⟩ (by simp only; omega))]
+  rw [bind_fst_ok _ (readByte_ok m p (by omega) ⟨s, s + body.length⟩ (by simp only; omega) (by simp only; omega))]
   have hflat : (before ++ t :: after).flatMap encStr
       = before.flatMap encStr ++ (encStr t ++ after.flatMap encStr) := by simp
   have hb2 : Holds p.rd s ((before ++ t :: after).length ::
@@ -449,7 +463,7 @@ theorem find_string_roundtrip (m : Mode) (p : Prov) (hcs : 4 ≤ p.cs) (hdr : Li
     (by simp only [List.length_append, encStr, List.length_cons]; omega) (by simp only; omega))]
   -- the length byte of the wanted string
   have hb4 := hb3.append.2
-  rw [bind_fst_ok _ (readByte_ok m p (by omega) _ (by simp only; omega))]
+  rw [bind_fst_ok _ (readByte_ok m p (by omega) _ (by simp only; omega) (by simp only; omega))]
   have hlb : p.rd (s + 1 + (before.flatMap encStr).length) = t.length := by
     have := hb4.get 0 (by simp [encStr]); simpa [encStr] using this
   simp only [hlb]
@@ -465,14 +479,15 @@ theorem find_string_roundtrip (m : Mode) (p : Prov) (hcs : 4 ≤ p.cs) (hdr : Li
   simp only [ret_fst]
   rw [hb5]
 
-/-- `find_string` with the index one past the table is NOT reported absent (the code tests
-    `search_index > num_strings` after making the index 0-based): with the two strings "A", "B" and a zero pad
-    byte, index 3 yields `Some("")` — the pad byte read as a length. -/
-theorem find_string_one_past_counterexample :
+/-- FIXED (was `find_string_one_past_counterexample`: the code tested `search_index > num_strings` after making
+    the index 0-based, so index = count + 1 decoded the pad byte as a length and returned `Some("")`): with the
+    two strings "A", "B", index 3 and every larger index are absent. -/
+theorem find_string_one_past_fixed :
     let cats : List Cat := [⟨10, [2, 1, 0x41, 1, 0x42, 0]⟩]
     let p : Prov := ⟨imgRd (encodeSii (List.replicate 128 0) cats) 255, 4⟩
     (findString .checked p 16 2).1 = .ok (some [0x42]) ∧
-    (findString .checked p 16 3).1 = .ok (some []) ∧
+    (findString .checked p 16 3).1 = .ok none ∧
+    (findString .wrapping p 16 3).1 = .ok none ∧
     (findString .checked p 16 4).1 = .ok none := by
   decide
 
@@ -512,7 +527,8 @@ theorem t1_constants :
     Gen.Eeprom.CAT_FMMU = 40 ∧ Gen.Eeprom.CAT_SYNC_MANAGER = 41 ∧ Gen.Eeprom.CAT_FMMU_EX = 42 ∧
     Gen.Eeprom.CAT_TX_PDO = 50 ∧ Gen.Eeprom.CAT_RX_PDO = 51 ∧ Gen.Eeprom.CAT_END = 65535 ∧
     Gen.Eeprom.IDENTITY_WORD_ADDR = 8 ∧ Gen.Eeprom.MAILBOX_WORD_ADDR = 24 ∧ Gen.Eeprom.SIZE_WORD_ADDR = 62 ∧
-    Gen.Eeprom.EMPTY_CATEGORY_LIMIT = 32 ∧ Gen.Eeprom.FMMU_READ_BUF = 16 := by
+    Gen.Eeprom.EMPTY_CATEGORY_LIMIT = 32 ∧ Gen.Eeprom.FMMU_READ_BUF = 16 ∧
+    Gen.Eeprom.ADDRESS_SPACE_BYTES = Eeprom.ADDRESS_SPACE_BYTES := by
   decide
 
 /-- A complete small image: Strings, a vendor category, SyncManager, FMMU, End; every hypothesis of the round
